@@ -536,7 +536,8 @@ impl AsmParser {
                 }
                 TokenKind::Lit(_) => {
                     let val = self.expect_lit(Bits::Signed(bits))?;
-                    let label = Label::Ref(self.line + 1 + val);
+                    // `val` is a two's-complement offset from the next line, so the sum wraps
+                    let label = Label::Ref(self.line.wrapping_add(1).wrapping_add(val));
                     Ok(label)
                 }
                 _ => {
